@@ -311,4 +311,22 @@ theorem afterStepGen_eq (isWord : Char → Bool) (lower : List Char → List Cha
   | error e => rfl
   | ok sel => rfl
 
+theorem selectProjectGen_eq (isWord : Char → Bool) (lower : List Char → List Char) (kexpr mexpr : List Char)
+    (tasks : List TaskInfo) :
+    selectProjectGen deselectSteps isWord lower kexpr mexpr tasks = selectProject isWord lower kexpr mexpr tasks := by
+  have h : deselectSteps = [⟨"select_by_keyword", "isNotNone", "skip"⟩, ⟨"select_by_mark", "isNotNone", "skip"⟩] := by decide
+  rw [h]
+  unfold selectProjectGen selectProject
+  simp only [evalSelections, selectFnGen, selectGen_keyword, selectGen_mark]
+  cases selectByKeyword isWord lower kexpr tasks with
+  | error e => rfl
+  | ok rk =>
+    cases selectByMark isWord mexpr tasks with
+    | error e => rfl
+    | ok rm =>
+      simp only [List.all_cons, List.all_nil, Bool.and_true]
+      congr 2
+      funext i
+      cases rk <;> cases rm <;> simp [keptByGen, keptBy]
+
 end Pytask.SelExpr.Gen
